@@ -557,6 +557,41 @@ func genPoolSrc(repo string) (string, error) {
 		}
 	}
 
+	// ---- binding pool GetActiveClient: lookup of the bound client, dial and binding in ONE critical section
+	bindDialLocked := false
+	{
+		fs, ff, err := ParseGoFile(repo, "pkg/stream/xprotocol/connpool_binding.go")
+		if err != nil {
+			return "", err
+		}
+		if fd := FindFunc(ff, "poolBinding", "GetActiveClient"); fd == nil {
+			bad("binding GetActiveClient not found")
+		} else {
+			iLock, iDefer, iDial, iUnlock := -1, -1, -1, -1
+			for i, st := range fd.Body.List {
+				txt := exprStr(fs, st)
+				switch {
+				case txt == "p.clientMux.Lock()" && iLock < 0:
+					iLock = i
+				case txt == "deferp.clientMux.Unlock()" && iDefer < 0:
+					iDefer = i
+				case txt == "p.clientMux.Unlock()" && iUnlock < 0:
+					iUnlock = i
+				case containsCall(st, "newActiveClient") && iDial < 0:
+					iDial = i
+				}
+			}
+			switch {
+			case iLock >= 0 && iDefer == iLock+1 && iDial > iDefer && iUnlock < 0:
+				bindDialLocked = true
+			case iLock >= 0 && iDial >= 0:
+				bindDialLocked = false
+			default:
+				bad("binding GetActiveClient: lock (%d), deferred unlock (%d), dial (%d) not recognised", iLock, iDefer, iDial)
+			}
+		}
+	}
+
 	// ---- HTTP/2 pool: connection accounting (Model/PoolH2.v, Model/PoolH2Race.v)
 	h2Identity, h2SkipGoaway, h2DecOnDrop, h2DialLocked := false, false, false, false
 	{
@@ -742,6 +777,7 @@ func genPoolSrc(repo string) (string, error) {
 	fmt.Fprintf(&b, "Definition poolres_src_counts_unlimited : bool := %v.\n", resCountsUnlimited)
 	fmt.Fprintf(&b, "Definition poolinit_src_pp_count_locked : bool := %v.\n", ppCountLocked)
 	fmt.Fprintf(&b, "Definition poolhttp_src_idle_data_closes : bool := %v.\n", httpIdleDataCloses)
+	fmt.Fprintf(&b, "Definition poolbind_src_dial_locked : bool := %v.\n", bindDialLocked)
 	fmt.Fprintf(&b, "Definition poolh2_src_switches : h2sw := mkH2Sw %v %v %v.\n", h2Identity, h2SkipGoaway, h2DecOnDrop)
 	fmt.Fprintf(&b, "Definition poolh2_src_dial_locked : bool := %v.\n", h2DialLocked)
 	fmt.Fprintf(&b, "Definition PoolSrc_translator_ok := %v.\n", ok)
@@ -846,6 +882,52 @@ func genXConnSrc(repo string) (string, error) {
 			hj = "HjCopy"
 		}
 		fmt.Fprintf(&b, "Definition xsrc_hijack_%s : hijack_id := %s.\n", p.name, hj)
+	}
+	// the client stream table against resets (Model/XConn.v: XReset deletes the id of the stream whatever its state; XNew
+	// creates a fresh alive stream): xStream.ResetStream starts with the delete under clientMutex, no return before it;
+	// newClientStream starts from a clean stream object (the pooled object of the request context is re-used by retries)
+	{
+		resetDeletes, freshStream := false, false
+		if fs, ff, err := ParseGoFile(repo, "pkg/stream/xprotocol/stream.go"); err != nil {
+			return "", err
+		} else if fd := FindFunc(ff, "xStream", "ResetStream"); fd != nil && len(fd.Body.List) >= 2 {
+			first := exprStr(fs, fd.Body.List[0])
+			last := exprStr(fs, fd.Body.List[len(fd.Body.List)-1])
+			resetDeletes = first == "ifs.direction==stream.ClientStream&&!s.connReset{s.sc.clientMutex.Lock();delete(s.sc.clientStreams,s.id);s.sc.clientMutex.Unlock()}" ||
+				first == "ifs.direction==stream.ClientStream&&!s.connReset{s.sc.clientMutex.Lock()delete(s.sc.clientStreams,s.id)s.sc.clientMutex.Unlock()}"
+			if last != "s.BaseStream.ResetStream(reason)" {
+				ok = false
+				fmt.Fprintf(&b, "(* xStream.ResetStream does not end with BaseStream.ResetStream: %s *)\n", last)
+			}
+		} else {
+			ok = false
+			b.WriteString("(* xStream.ResetStream not recognised *)\n")
+		}
+		if fs, ff, err := ParseGoFile(repo, "pkg/stream/xprotocol/conn.go"); err != nil {
+			return "", err
+		} else if fd := FindFunc(ff, "streamConn", "newClientStream"); fd != nil {
+			iTake, iZero, iID := -1, -1, -1
+			for i, st := range fd.Body.List {
+				switch txt := exprStr(fs, st); {
+				case txt == "clientStream:=&buffers.clientStream":
+					iTake = i
+				case txt == "*clientStream=xStream{}":
+					iZero = i
+				case strings.HasPrefix(txt, "clientStream.id=") && iID < 0:
+					iID = i
+				}
+			}
+			freshStream = iTake >= 0 && iZero == iTake+1 && iID > iZero
+			if iTake < 0 || iID < 0 {
+				ok = false
+				b.WriteString("(* streamConn.newClientStream not recognised *)\n")
+			}
+		} else {
+			ok = false
+			b.WriteString("(* streamConn.newClientStream not found *)\n")
+		}
+		fmt.Fprintf(&b, "Definition xsrc_reset_deletes_unconditionally : bool := %v.\n", resetDeletes)
+		fmt.Fprintf(&b, "Definition xsrc_client_stream_fresh : bool := %v.\n", freshStream)
 	}
 	fmt.Fprintf(&b, "Definition XConnSrc_translator_ok := %v.\n", ok)
 	return b.String(), nil
